@@ -151,15 +151,13 @@ Theorem C04_rtsp_ws_concat : forall plens st,
 Proof. exact ws_concat. Qed.
 Print Assumptions C04_rtsp_ws_concat.
 
-(* ---- finding: Marshal of a message with a body and a nil Header map panics ---- *)
-Theorem C04_rtsp_marshal_nil_header_refuted : exists m, marshal_go true m = None /\ wf_msg any_url m.
-Proof. exact marshal_nil_header_refuted. Qed.
-Print Assumptions C04_rtsp_marshal_nil_header_refuted.
-
-(* the part that holds: with a non-nil Header (what every theorem above assumes) Marshal is total *)
-Theorem C04_rtsp_marshal_total_partial : forall m, marshal_go false m = Some (marshal m).
-Proof. exact marshal_go_total. Qed.
-Print Assumptions C04_rtsp_marshal_total_partial.
+(* ---- Marshal is total ---- *)
+(* For every message, with a nil or a non-nil Header map, Marshal returns the bytes of [marshal] (a nil
+   Header is the empty map); together with parse_marshal: a message with a body and a nil Header is read
+   back with its Content-Length.  (Before /repo c1d5d94 this was refuted: nil Header + body panicked.) *)
+Theorem C04_rtsp_marshal_total : forall nil_header m, marshal_go nil_header m = Some (marshal m).
+Proof. exact marshal_total. Qed.
+Print Assumptions C04_rtsp_marshal_total.
 
 (* ---- non-vacuity ---- *)
 Example C04_example_wf : Forall (wf_msg any_url) [ex_req; ex_frame; ex_res; ex_frame].
@@ -183,6 +181,9 @@ Proof. exact ex_limit_count. Qed.
 Example C04_example_limit_count_ok :
   exists m, conn_read any_url (s2b "PLAY rtsp://h/ RTSP/1.0" ++ crlf ++ concat (repeat (s2b "K: v" ++ crlf) 255) ++ crlf) = Ok m [].
 Proof. exact ex_limit_count_ok. Qed.
+(* regression: the code before c1d5d94 panicked on this well-formed message *)
+Example C04_example_old_nil_header_panicked : exists m, marshal_go_old true m = None /\ wf_msg any_url m.
+Proof. exact marshal_old_nil_header_panicked. Qed.
 Example C04_example_b64 :
   concat (map b64_encode [[97; 98]; [99; 100; 101]]) = [89; 87; 73; 61; 89; 50; 82; 108] /\
   breads [2; 1; 5; 5] (binit [[89; 87]; [73]; [61; 89; 50; 82]; [108]]) = ([[97; 98]; [99]; [100; 101]], BEof).
